@@ -21,10 +21,10 @@ def frame(payload):
 
 
 KIND2PC = {
-    "start": {"start"}, "write": {"c_write"}, "ready?": {"w_check", "w_final", "d_expired"},
-    "lock": {"s_cond_in", "s_reacq", "s_ncond_in"}, "trylock": {"s_trylock"}, "cond_wait": {"s_wait"},
-    "cond_blocked": {"s_blocked"}, "unlock:cond": {"s_cond_out1", "s_cond_out2", "s_ncond_out"}, "poll": {"s_poll"},
-    "read": {"s_hdr", "s_body"}, "unlock:recv": {"s_release"}, "notify_all": {"s_notify"},
+    "start": {"start"}, "write": {"c_write"}, "ready?": {"w_check", "w_final", "d_expired", "s_precheck", "s_recheck"},
+    "lock": {"s_cond_in", "s_reacq", "s_ncond_in", "d_ncond_in"}, "trylock": {"s_trylock"}, "cond_wait": {"s_wait"},
+    "cond_blocked": {"s_blocked"}, "unlock:cond": {"s_cond_out1", "s_cond_out2", "s_ncond_out", "d_ncond_out"}, "poll": {"s_poll"},
+    "read": {"s_hdr", "s_body"}, "unlock:recv": {"s_release", "s_giveup"}, "notify_all": {"s_notify", "d_notify"},
     "dispatch": {"s_dispatch"}, "set_ready": {"d_publish"}, "sleep": {"b_sleep"},
 }
 
@@ -479,12 +479,28 @@ def tla_consts(cfg, prefix="TV"):
     defs = ['%sClients == {%s}' % (prefix, ", ".join('"%s"' % t for t in th))]
     cases = ['t = "%s" -> <<%s>>' % (t, ", ".join('"%s"' % r for r in cfg["reqs"][t])) for t in th]
     defs.append('%sReqs == [t \\in %sClients |-> CASE %s]' % (prefix, prefix, " [] ".join(cases)))
-    lines = ["Clients <- %sClients" % prefix, "Reqs <- %sReqs" % prefix, 'Bg = "%s"' % ("bg" if cfg["bg"] else "none")]
+    lines = ["Clients <- %sClients" % prefix, "Reqs <- %sReqs" % prefix, 'Bg = "%s"' % ("bg" if cfg["bg"] else "none"),
+             "Handoff = %s" % ("TRUE" if handoff_repaired() else "FALSE")]
     return "\n".join(defs), lines
+
+
+def handoff_repaired():
+    """does the working tree's serve() have the hand-off repair (serve(..., until=...))?  The specification has both variants."""
+    import inspect
+    from rpyc.core.protocol import Connection
+    try:
+        return "until" in inspect.signature(Connection.serve).parameters
+    except (TypeError, ValueError):
+        return False
 
 
 INVS = ["RecvMutex", "CondMutex", "DispatchedOnce", "ReplyMatches", "Completed", "NoLostWakeup", "NoHang",
         "WillBeWoken", "OnlyKnownStalls"]
+
+
+def invs():
+    """with the hand-off repair the property holds as stated: no stall at all"""
+    return INVS + (["NoStall"] if handoff_repaired() else [])
 
 
 # --------------------------------------------------------------------------- choosers
@@ -654,7 +670,7 @@ def replay_graph(chk, cfgname, max_paths, on_problem):
         f.write("---- MODULE %s ----\nEXTENDS RpycServe\n%s\n====\n" % (root, defs))
     with open(os.path.join(d, root + ".cfg"), "w") as f:
         f.write("SPECIFICATION Spec\nCONSTANTS\n" + "\n".join("  " + x for x in lines) + "\n" +
-                "\n".join("INVARIANT " + i for i in INVS) + "\n")
+                "\n".join("INVARIANT " + i for i in invs()) + "\n")
     dot = os.path.join(d, "graph")
     res = tlc.run_tlc(root, root + ".cfg", workers=8, dump=dot, cwd=d, jvm_props=["TLA-Library=" + tlc.SPEC])
     tlc.require_ok(res, "RpycServe graph dump")
@@ -860,7 +876,7 @@ def validate(chk, cfgname, traces, selftest=True):
             bad2 = [dict(e) for e in base]
             del bad2[k]
             batch += [bad1, bad2]
-    out, res = tlc.validate_traces("Trace_RpycServe", batch, defs, lines, invariants=INVS, name="serve_" + cfgname)
+    out, res = tlc.validate_traces("Trace_RpycServe", batch, defs, lines, invariants=invs(), name="serve_" + cfgname)
     chk.add_tlc(res, "trace validation batch (RpycServe, %s)" % cfgname)
     viol = res.violation
     if selftest and len(batch) > n_real:
